@@ -464,9 +464,15 @@ def skip_arm(rep, prog, rule):
 
 
 def run(rep, tier):
-    cfgs = ["x86"] if tier == "quick" else ["x86", "x86-rayon", "arm", "wasm"]
+    cfgs = ["x86", "x86-rayon"] if tier == "quick" else ["x86", "x86-rayon", "arm", "wasm"]
     for cfg, prog in programs(cfgs):
         rep.set_cfg(cfg)
+        if "rayon" in cfg:
+            # a copy that is spread over threads must not apply the crop offset to a band twice
+            from . import c08
+            rep.call(c08.offset_once, rep, prog, "C12.offset-once")
+            if tier == "quick":
+                continue
         rep.call(fast_path, rep, prog, "C12.fast-path")
         rep.call(copy_cond, rep, prog, "C12.copy-cond")
         rep.call(need_pass, rep, prog, "C12.need-pass")
